@@ -1,7 +1,7 @@
 //! lattice / semiring cases for the float-based weight types and the Boolean semiring, on a grid of values
 //! that includes incomparable pairs, equal elements, signed zeros and infinities
 use crate::CaseResult;
-use rsdd::util::semirings::{BBRing, BBSemiring, BooleanSemiring, ExpectedUtility, JoinSemilattice, MeetSemilattice, RealSemiring, Semiring};
+use rsdd::util::semirings::{BBRing, BBSemiring, BooleanSemiring, ExpectedUtility, JoinSemilattice, MeetSemilattice, RationalSemiring, RealSemiring, Semiring};
 use serde_json::{json, Value};
 
 fn f(v: &Value) -> f64 {
@@ -42,6 +42,18 @@ pub fn run(c: &Value) -> CaseResult {
             }
             Ok(())
         }
+        "lat_rational" => {
+            // the wrapped rational is private: values are the naturals reachable from one()/zero() by addition
+            let nat = |n: u64| { let mut x = RationalSemiring::zero(); for _ in 0..n { x = x + RationalSemiring::one(); } x };
+            let (na, nb, nd) = (c["a"].as_u64().unwrap_or(0), c["b"].as_u64().unwrap_or(0), c["c"].as_u64().unwrap_or(0));
+            let (a, b, d) = (nat(na), nat(nb), nat(nd));
+            let (one, zero) = (RationalSemiring::one(), RationalSemiring::zero());
+            chk("rational + is addition", a + b == nat(na + nb))?; chk("rational * is multiplication", a * b == nat(na * nb))?;
+            chk("rational + associative/commutative", (a + b) + d == a + (b + d) && a + b == b + a)?;
+            chk("rational * associative/commutative", (a * b) * d == a * (b * d) && a * b == b * a)?;
+            chk("rational identities", a + zero == a && a * one == a && a * zero == zero && one != zero)?;
+            chk("rational distributive", a * (b + d) == (a * b) + (a * d))
+        }
         _ => {
             let (a, b, d) = (BooleanSemiring(c["a"].as_bool().unwrap_or(false)), BooleanSemiring(c["b"].as_bool().unwrap_or(false)), BooleanSemiring(c["c"].as_bool().unwrap_or(false)));
             let (one, zero) = (BooleanSemiring::one(), BooleanSemiring::zero());
@@ -53,6 +65,7 @@ pub fn run(c: &Value) -> CaseResult {
 pub fn candidates(_seed: u64) -> Vec<Value> {
     let mut out = vec![];
     for a in [false, true] { for b in [false, true] { for c in [false, true] { out.push(json!({"case": "lat_bool", "a": a, "b": b, "c": c})); } } }
+    for a in 0..5u64 { for b in 0..5u64 { for c in 0..4u64 { out.push(json!({"case": "lat_rational", "a": a, "b": b, "c": c})); } } }
     let vals = vec![json!(0.0), json!("-0"), json!(0.25), json!(1.0), json!(2.0), json!(-3.0), json!(8.0), json!("inf"), json!("-inf")];
     for a in vals.iter() { for b in vals.iter() { for c in vals.iter().take(5) { out.push(json!({"case": "lat_real", "a": a, "b": b, "c": c})); } } }
     let pv = vec![json!([0.0, 0.0]), json!([0.0, 0.25]), json!([1.0, 2.0]), json!([2.0, 1.0]), json!([1.0, 1.0]), json!(["-0", 0.0]), json!([0.5, "inf"]), json!([-1.0, -1.0])];
